@@ -241,7 +241,12 @@ async def finish(ctx):
 
 
 def finish_ref(tctx, env, prog):
-    return {'out': [plain(env[v]) for v in prog['outputs']], 'log': tctx['log']}
+    return {'out': [plain(env[v]) for v in prog['outputs']], 'log': tctx['log'], '_env': env}
+
+
+def compare_partial(expected, glog, pid, m):
+    elog = {k: v for k, v in expected['log'].items() if k in glog}
+    return compare_log(elog, glog, pid, m)
 
 
 def compare(expected, got, pid, m):
